@@ -376,3 +376,54 @@ def _call_shuffle_fn(fr, f, X, start=None, end=None, n=None, random_state=None, 
         raise Unsupported("shuffle_fn on a non rank-3 tensor")
     fr.ctx.events.append(('shuffle_fn_call',))
     return shuffle_fn_result(f, X, n)
+
+
+# ---------------------------------------------------------------------------------------------
+# Random number generators as a fixed random tape (DESIGN 5 C02): every draw is a term
+# DRAW(tape, position, ...) of a generator constructed from `random_state`; an integer seed IS the
+# tape, so a result that only mentions (inputs, seed) is a deterministic function of them.
+
+PERM = z3.Function('PERM', z3.IntSort(), z3.IntSort(), z3.IntSort(), z3.IntSort(), z3.IntSort())   # tape, pos, n, i
+_perm_axioms_added = {}
+
+
+def perm_axioms(tape, pos, n):
+    """assumed contract of RandomState.shuffle: some permutation of [0, n) determined by the state"""
+    i, j = z3.Ints('pi pj')
+    t, p, nn = O.to_z3(tape), O.to_z3(pos), O.to_z3(n)
+    return [z3.ForAll([i], z3.Implies(z3.And(0 <= i, i < nn), z3.And(PERM(t, p, nn, i) >= 0, PERM(t, p, nn, i) < nn))),
+            z3.ForAll([i, j], z3.Implies(z3.And(0 <= i, i < nn, 0 <= j, j < nn, PERM(t, p, nn, i) == PERM(t, p, nn, j)), i == j))]
+
+
+def make_rng(seed, fr=None):
+    if seed is None:
+        tape = O.fresh_int('unseeded_tape')
+    elif isinstance(seed, Opaque) and seed.cls == 'rng':
+        return seed
+    else:
+        tape = seed
+    return Opaque('rng', 'rng', {'tape': tape, 'pos': 0, 'types': ['numpy.random.RandomState', 'numpy.random.mtrand.RandomState']})
+
+
+@L.lib('numpy.random.RandomState', 'numpy.random.mtrand.RandomState')
+def _RandomState(fr, seed=None):
+    if seed is not None and not (isinstance(seed, int) or (O.is_sym(seed) and z3.is_int(seed))):
+        raise Unsupported("RandomState(%r)" % (seed,))
+    return make_rng(seed, fr)
+
+
+@L.method('rng.shuffle')
+def _rng_shuffle(fr, rng, t):
+    if not isinstance(t, Tn) or t.rank != 1:
+        raise Unsupported("shuffle of a non rank-1 array")
+    n = t.shape[0]
+    tape, pos = rng.attrs['tape'], rng.attrs['pos']
+    for ax in perm_axioms(tape, pos, n):
+        fr.ctx.assume(ax)
+    fr.ctx.trusted.add('assumed: RandomState.shuffle applies some permutation determined by the generator state')
+    old = t.snapshot()
+    tt, pp, nn = O.to_z3(tape), O.to_z3(pos), O.to_z3(n)
+    new = Tn.fresh([n], lambda i: old(PERM(tt, pp, nn, O.to_z3(i))), t.kind, lib=t.lib)
+    t.write([('all',)], new, fr.ctx)
+    rng.attrs['pos'] = pos + 1
+    return None
